@@ -575,15 +575,17 @@ func TestVerifC14WalkSweep(t *testing.T) {
 					res = strings.Join(out, "; ")
 				}
 				want := "ok"
-				if row.finding != "" && verifC14ExpectRewrite(row, fn, flags&1 != 0, flags&2 != 0) {
+				fl := verifC14FlagSets[flags]
+				if row.finding != "" && verifC14ExpectRewrite(row, fn, fl&1 != 0, fl&2 != 0) {
 					want = "finding " + row.finding
 				}
 				counts[res]++
-				if flags == 3 || res != "ok" {
-					fmt.Printf("SWEEP %-28s %-11s flags=%d %-45s %s\n", row.kind+"."+row.slot, verifC14Markers[fn], flags, res, strings.Replace(row.sql, "§", verifC14Markers[fn], 1))
+				if fl == 3 || res != "ok" {
+					fmt.Printf("SWEEP %-28s %-11s rwrand=%v rwtime=%v %-45s %s\n", row.kind+"."+row.slot, verifC14Markers[fn], fl&1 != 0, fl&2 != 0, res, strings.Replace(row.sql, "§", verifC14Markers[fn], 1))
 				}
-				if res != want && res != "ok" {
-					t.Errorf("%s.%s %s flags=%d: %s (table expects %s)", row.kind, row.slot, verifC14Markers[fn], flags, res, want)
+				// (classes of the rendition, C14-render-*, are not the table's business: printed only)
+				if res != want && res != "ok" && !strings.HasPrefix(res, "finding C14-render-") {
+					t.Errorf("%s.%s %s rwrand=%v rwtime=%v: %s (table expects %s)", row.kind, row.slot, verifC14Markers[fn], fl&1 != 0, fl&2 != 0, res, want)
 				}
 				if res == "ok" && want != "ok" {
 					fmt.Printf("SWEEP   (the table records %s for this row: not reproduced on this tree)\n", row.finding)
@@ -592,4 +594,23 @@ func TestVerifC14WalkSweep(t *testing.T) {
 		}
 	}
 	fmt.Printf("SWEEP totals: %v\n", counts)
+	// the rendition texts: outcomes are printed; which of them are recorded classes is decided by
+	// the check (known_findings.json), not here
+	for i, tx := range verifC14RenderTexts {
+		for fn := range verifC14Markers {
+			b, _ := json.Marshal(map[string]any{"values": map[string]any{"text": i, "fn": fn}})
+			if err := os.WriteFile(file, b, 0o644); err != nil {
+				t.Fatal(err)
+			}
+			out := verifRun("VerifC14Render", VerifC14Render)
+			res := "ok"
+			if len(out) > 0 {
+				res = strings.Join(out, "; ")
+			}
+			fmt.Printf("RENDER %-45s %s\n", res, strings.Replace(tx, "§", verifC14Markers[fn], 1))
+			if res != "ok" && !strings.HasPrefix(res, "finding C14-render-") {
+				t.Errorf("%s: %s", tx, res)
+			}
+		}
+	}
 }
